@@ -3,12 +3,12 @@ from props_common import *
 PROP = dict(
     title="Programs can only write memory they own",
     family="own", harness="own", run_vo="Run/Own.vo",
-    theorems=["C24_owned_write", "C24_owned_memcopy", "C24_ownership_nonempty", "C24_ownership_empty",
+    theorems=["C24_owned", "C24_owned_memcopy", "C24_ownership_nonempty", "C24_ownership_empty",
               "C24_empty_write_changes_nothing", "C24_heap_unallocated",
               "C24_write_beyond_memory", "C24_write_unallocated_or_spanning", "C24_write_not_owned", "C24_foreign_byte_refused",
               "C24_access_gap_refused", "C24_access_spanning_refused", "C24_access_exact",
               "C24_ldc_stack_only", "C24_ldc_owner_refuses_heap",
-              "C24_machine_step", "C24_machine_invariant", "C24_machine_runs",
+              "C24_step", "C24_machine_invariant", "C24_machine_runs",
               "C24_class_table_matches_handlers", "C24_unchecked_sites_accounted"],
     open_statements=[
         "NOT proved: that every opcode handler of the Rust interpreter routes its memory writes through MemoryInstance::write / memcopy with "
@@ -17,7 +17,7 @@ PROP = dict(
         "harness oracle checks the memory diff), and statically only as far as the two generated tables go (handler -> interpreter method route, "
         "list of ownership-bypassing call sites), which make a proof obligation fail when a handler is re-routed or a new unchecked write site appears.",
         "The abstract machine (Vm/FrameModel.v cop) abstracts instructions to their effect on $ssp/$sp/$fp/$hp, the frame stack and memory; "
-        "gas, balances, receipts, storage are not part of it. C24_machine_* quantify over all operation sequences of THAT machine.",
+        "gas, balances, receipts, storage are not part of it. C24_step, C24_machine_invariant and C24_machine_runs quantify over all operation sequences of THAT machine.",
         "ECAL (embedder-supplied handler) is only constrained by the oracle/trace check 'changes inside owned memory'; it is not generated.",
     ],
     translators=["vmconsts"],
@@ -32,7 +32,7 @@ PROP = dict(
         "memory as a flat zero-initialised array with bounds (stack.len(), hp): that MemoryInstance behaves like this is property C23",
     ],
     assumptions=[
-        "C24_machine_* / C24_ldc_stack_only: Inv s (ssp <= sp <= stack.len() <= hp = memory.hp <= VM_MAX_RAM and the frame chain: each frame sits at its "
+        "C24_step, C24_machine_invariant, C24_machine_runs, C24_ldc_stack_only: Inv s (ssp <= sp <= stack.len() <= hp = memory.hp <= VM_MAX_RAM and the frame chain: each frame sits at its "
         "caller's $sp, ssp >= fp + frame + code, hp <= saved hp). Holds initially (Example ex_state_inv) and is preserved by every step (C24_machine_invariant)",
         "C24_access_spanning_refused: stack.len() <= hp (memory invariant of C23)",
     ],
